@@ -62,7 +62,9 @@ func c10(c *an.Check) {
 				if n == nil {
 					return false
 				}
-				ok := s.AnyFact(func(s *an.State, x, y ssa.Value, r an.Rel) bool { return s.Key(x) == s.Key(n) && an.IsIntConst(y, 0) && r == an.GT })
+				ok := s.AnyFact(func(s *an.State, x, y ssa.Value, r an.Rel) bool {
+					return s.Key(x) == s.Key(n) && an.IsIntConst(y, 0) && r == an.GT
+				})
 				if !ok {
 					return false
 				}
@@ -218,8 +220,8 @@ func c10(c *an.Check) {
 	if bce != nil {
 		fns := []*ssa.Function{dec, enc, ifb, epk, ifp, mpk, bd, p.Func("peer", "ID", "ShortString"), p.Func("peer", "ID", "String"), p.Func("peer", "ID", "Validate"), p.Func("peer", "", "IDB58Encode")}
 		c.Totality(an.PanicSpec{Construct: "peer ID codec totality", Funcs: fns, BCE: bce, Min: 11, Reviewed: map[string]string{
-			an.FuncName(enc) + ": bounds buf[n:]":  "buf is allocated with 2*MaxVarintLen64+len(digest) bytes and n is the byte count PutUvarint reported (<= MaxVarintLen64), so n <= len(buf); encoder input is local, not wire data",
-			an.FuncName(enc) + ": bounds buf[:n]":  "n is the sum of two PutUvarint counts (<= 2*MaxVarintLen64) and a copy count (<= len(digest)), which is at most the allocated length",
+			an.FuncName(enc) + ": bounds buf[n:]": "buf is allocated with 2*MaxVarintLen64+len(digest) bytes and n is the byte count PutUvarint reported (<= MaxVarintLen64), so n <= len(buf); encoder input is local, not wire data",
+			an.FuncName(enc) + ": bounds buf[:n]": "n is the sum of two PutUvarint counts (<= 2*MaxVarintLen64) and a copy count (<= len(digest)), which is at most the allocated length",
 		}})
 	}
 	c.Trust("encoding/binary.Uvarint: n>0 implies n<=len(buf)", "github.com/mr-tron/base58 Decode never panics", "crypto.UnmarshalPublicKey totality is decided under C11")
@@ -227,7 +229,7 @@ func c10(c *an.Check) {
 
 func init() {
 	register(&Def{ID: "C10", Run: c10,
-		Explain: "Decides on SSA: (R1) the multihash decoder succeeds only past both varints n>0 and remaining-length == declared length, and returns (first varint, exact suffix); IDFromBytes / IDB58Decode / confparse.ParsePeerID succeed only past it and return the validated bytes; ExtractPublicKey parses a key only past decode ok and code==identity, from the ID's own digest; IDFromPublicKey is the identity multihash of MarshalPublicKey(pk); MatchesPublicKey is equality with the re-derived ID; (MIRROR) encoder writes varint,varint,digest; (PANIC) every compiler-unproven bounds check, variable divisor, unchecked assertion or explicit panic in the ID codec functions is discharged by path facts or a reviewed reason.",
-		NotCov:  "round-trip and injectivity as value statements (follow from the mirror + exact-length rule under the trusted varint/base58/protobuf codecs, not proved here).",
+		Explain:     "Decides on SSA: (R1) the multihash decoder succeeds only past both varints n>0 and remaining-length == declared length, and returns (first varint, exact suffix); IDFromBytes / IDB58Decode / confparse.ParsePeerID succeed only past it and return the validated bytes; ExtractPublicKey parses a key only past decode ok and code==identity, from the ID's own digest; IDFromPublicKey is the identity multihash of MarshalPublicKey(pk); MatchesPublicKey is equality with the re-derived ID; (MIRROR) encoder writes varint,varint,digest; (PANIC) every compiler-unproven bounds check, variable divisor, unchecked assertion or explicit panic in the ID codec functions is discharged by path facts or a reviewed reason.",
+		NotCov:      "round-trip and injectivity as value statements (follow from the mirror + exact-length rule under the trusted varint/base58/protobuf codecs, not proved here).",
 		Assumptions: commonAssumptions})
 }
